@@ -303,6 +303,19 @@ BUILTINS = [
     ('S: "a"*! "b";', lambda k: ("a" * k + "b", [["a"] * k, "b"]), 0),
     ('S: ("a" "b")+ "c";', lambda k: ("ab" * k + "c", [[["a", "b"]] * k, "c"]), 1),
     ('S: x?="a"? "b";', lambda k: ("ab" if k % 2 else "b", ("obj", "S", (("x", bool(k % 2)),))), 0),
+    # built-in actions referenced from the grammar with @name
+    ('@pass_single\nS: A "b";\nA: "a"+;', lambda k: ("a" * k + "b", ["a"] * k), 1),
+    ('@pass_inner\nS: "(" A ")";\nA: "a"*;', lambda k: ("(" + "a" * k + ")", ["a"] * k), 0),
+    ('@pass_none\nS: "a"+;', lambda k: ("a" * k, None), 1),
+    ('@collect\nS: S "a" | "a";', lambda k: ("a" * k, ["a"] * k), 1),
+    ('@collect_sep\nS: S "," "a" | "a";', lambda k: (",".join("a" * k), ["a"] * k), 1),
+    ('@collect_optional\nS: S "a" | "a" | EMPTY;', lambda k: ("a" * k, ["a"] * k), 0),
+    ('@collect_right\nS: "a" S | "a";', lambda k: ("a" * k, ["a"] * k), 1),
+    ('@collect_right_sep\nS: "a" "," S | "a";', lambda k: (",".join("a" * k), ["a"] * k), 1),
+    ('@collect_right_optional\nS: "a" S | "a" | EMPTY;', lambda k: ("a" * k, ["a"] * k), 0),
+    ('@collect_right_sep_optional\nS: "a" "," S | "a" | EMPTY;', lambda k: (",".join("a" * k), ["a"] * k), 0),
+    ('@collect_sep_optional\nS: S "," "a" | "a" | EMPTY;', lambda k: (",".join("a" * k), ["a"] * k), 0),
+    ('S: A;\n@optional\nA: "a" | EMPTY;', lambda k: ("a" if k % 2 else "", "a" if k % 2 else None), 0),
 ]
 
 
